@@ -10,7 +10,7 @@ XLINK = 'http://www.w3.org/1999/xlink'
 XMLNS = 'http://www.w3.org/XML/1998/namespace'
 MATH = 'http://www.w3.org/1998/Math/MathML'
 
-NAMES = ['div', 'p', 'span', 'a', 'ul', 'li', 'b', 'em', 'x-y', 'section', 'dd']
+NAMES = ['div', 'p', 'span', 'a', 'ul', 'li', 'b', 'em', 'x-y', 'section', 'dd', 'Section', 'DIV']     # case survives in API-built and XML trees
 CLASSES = ['x', 'y', 'zed', 'X', 'a-b', 'é']
 IDS = ['a', 'b', 'main', 'A', '1st', 'i d']
 TEXTS = ['', ' ', '\n', ' \t\n', 'hello', 'hello world', 'x', 'a"b', "it's", 'אבג', 'مرحبا', '123', '  pad  ',
@@ -141,7 +141,11 @@ class TGen:
                 a['placeholder'] = self.pick(['', 'ph'])
             if r.random() < 0.3:
                 a['dir'] = 'auto'
-            kids = [('t', self.pick(['', '\n', 'txt', 'אבג', '\n\n']))] if r.random() < 0.7 else []
+            kids = [('t', self.pick(['', '\n', 'txt', 'אבג', '\n\n']))] if r.random() < 0.6 else []
+            if r.random() < 0.25:
+                # markup inside a textarea stays markup for html.parser and XML parsers: content only in child elements
+                kids = self.pick([[('e', 'p', {}, [('t', 'Hello')])], [('e', 'b', {}, [])], [('t', '\n'), ('e', 'i', {}, [('t', 'אבג')])],
+                                  [('e', 'p', {}, [('e', 'b', {}, [('t', 'deep')])])]])
         elif kind == 'select':
             for k, p in (('disabled', 0.2), ('required', 0.3)):
                 if r.random() < p:
@@ -301,6 +305,11 @@ class TGen:
         if r.random() < 0.3:
             ha['dir'] = self.pick(['rtl', 'ltr', 'auto'])
         body = [self.langdir(1) for _ in range(r.randint(1, 3))]
+        if r.random() < 0.4:
+            # the SAME subtree (equal markup: bs4 tags then compare and hash equal) under different inherited languages
+            shared = ('e', 'ul', {}, [('e', 'li', {}, [('e', 'span', {'class': 'icon'}, []), ('t', 'x')])])
+            for lg in r.sample(['en', 'de', '', 'fr-CH', None], r.randint(2, 3)):
+                body.append(('e', 'div', {} if lg is None else {'lang': lg}, [('e', 'div', {}, [shared])]))
         if r.random() < 0.35:
             # an embedded document (only case-preserving builders keep it): its elements must not see the outer
             # document's language, <meta> pragma or direction
